@@ -125,13 +125,13 @@ Definition tok_sout (o : sout) : list N :=
   end.
 
 (* peers for the admission op: [n; (kR iR kL iL)*] *)
-Fixpoint admit_peers (k : nat) (l : list N) (s : server) : server * list N :=
+Fixpoint accept_peers (k : nat) (l : list N) (s : server) : server * list N :=
   match k with
   | O => (s, l)
   | S k' =>
       match l with
       | kr :: ir :: kl :: il :: r =>
-          admit_peers k' r (fst (server_step s (OAdd (mkCfg (mkAddr (akind_of kr) ir) 65001 65000)
+          accept_peers k' r (fst (server_step s (OAdd (mkCfg (mkAddr (akind_of kr) ir) 65001 65000)
                                                      (mkOpts (mkAddr (akind_of kl) il) 90 179 true))))
       | _ => (s, l)
       end
@@ -394,11 +394,11 @@ Definition run_model (op : N) (ints : list N) (bs : list bytes) : list N :=
   | 40 => flat_map tok_sout (snd (server_run server_init (sops_of (S (length ints)) ints)))
   | 41 => match ints with
           | n :: r =>
-              let (s, r') := admit_peers (N.to_nat n) r server_init in
+              let (s, r') := accept_peers (N.to_nat n) r server_init in
               match r' with
               | [ks; is_; kd; id_; dok] =>
-                  match server_admit s (mkAddr (akind_of ks) is_) (mkAddr (akind_of kd) id_) (negb (dok =? 0)) with
-                  | AdmitTo a => [1; tok_akind (a_kind a); a_id a]
+                  match server_accepts s (mkAddr (akind_of ks) is_) (mkAddr (akind_of kd) id_) (negb (dok =? 0)) with
+                  | HandTo a => [1; tok_akind (a_kind a); a_id a]
                   | Refuse => [0]
                   end
               | _ => [998]
@@ -600,14 +600,14 @@ Definition oracle (op : N) (ints : list N) (bs : list bytes) (out : list N) : li
                                       | RErrNotif n => 2 :: tok_notif n
                                       | RErrIO => [3]
                                       end) evs) then ok else bad 1
-  | 141 => (* C13: admitted iff source configured and (no local address or destination = it) *)
+  | 141 => (* C13: accepted iff source configured and (no local address or destination = it) *)
       match ints with
       | n :: r =>
-          let (s, r') := admit_peers (N.to_nat n) r server_init in
+          let (s, r') := accept_peers (N.to_nat n) r server_init in
           match r' with
           | [ks; is_; kd; id_; dok] =>
               let src := mkAddr (akind_of ks) is_ in
-              let want := spec_admit (abs s)
+              let want := spec_accepts (abs s)
                             (fun a => match lookup a (s_peers s) with
                                       | Some (_, o) => if is_valid (o_local o) then Some (o_local o) else None
                                       | None => None end)
